@@ -252,7 +252,9 @@ def gen_sdf(rng, desc, c, lib, branchforks, stats):
 def check_case(ctx, rng, idx):
     from kyupy import verilog, sdf
     import kyupy.techlib as T
-    desc = N.gen_desc(rng, n_inst=rng.randint(1, 25))
+    desc = N.gen_desc(rng, n_inst=rng.randint(1, 25) if idx != 1 else rng.choice([130, 280]))       # idx 1: more than 127 / 255 instances and CELL blocks
+    if idx == 1:
+        ctx.count('large_cases')
     vtext, feats = N.render_verilog(desc, rng, style={'aliases': False})
     bf = rng.random() < 0.5
     lib = getattr(T, desc['lib'])
